@@ -24,6 +24,9 @@ RULE = (
     "against an origin; messages beyond 16 KiB) are rendered, walked by an independent wire walker, parsed back and re-rendered. "
     "Distinct by (kind, opcode, rcode class, non-empty-section pattern, EDNS state, size class, origin mode)."
 )
+RULE += " " + (
+    "Also: data-less update forms carry TTL 0 on the wire; the message assembled by hand with Renderer gives the octets of to_wire; signature RRsets without explicit covers."
+)
 ASSUMPTIONS = [
     "reference wire walker vlib/ref/wirewalk.py and reference name decoder",
     "record equality is judged on the wire view (owner, wire class, type, covers, ttl, set of rdata encodings); rdata inside sections is decoded with dns.rdata.from_wire (decided by C02)",
